@@ -272,7 +272,10 @@ func TestC17(t *testing.T) {
 			case 1:
 				return noDollar(gen.Value(vcfg, 1).Draw(rt, label+"free"))
 			case 2:
-				return noDollar(gen.Near(vcfg, rapid.SampledFrom(palette).Draw(rt, label+"near0")).Draw(rt, label+"near"))
+				// a neighbour of a stored value, kept inside the key domain (times from 1970 on)
+				if v := noDollar(gen.Near(vcfg, rapid.SampledFrom(palette).Draw(rt, label+"near0")).Draw(rt, label+"near")); keyDomain(v) {
+					return v
+				}
 			}
 			return cs.Clone(rapid.SampledFrom(palette).Draw(rt, label+"stored"))
 		}
